@@ -4,6 +4,8 @@
 use std::collections::HashMap;
 use vharness::*;
 
+mod docsession;
+mod docsync;
 mod script;
 mod trace;
 
@@ -25,7 +27,7 @@ fn main() {
     let cases = read_cases(&args[2]);
     let stride: usize = opts.get("stride").and_then(|s| s.parse().ok()).unwrap_or(1).max(1);
     let offset: usize = opts.get("offset").and_then(|s| s.parse().ok()).unwrap_or(0);
-    let cases: Vec<_> = cases.into_iter().enumerate().filter(|(i, _)| i % stride == offset % stride).map(|(_, c)| c).collect();
+    let cases: Vec<_> = cases.into_iter().enumerate().filter(|(i, c)| c.0 == "META" || i % stride == offset % stride).map(|(_, c)| c).collect();
     if cases.is_empty() {
         eprintln!("no cases in {}", args[2]);
         std::process::exit(2);
@@ -33,6 +35,9 @@ fn main() {
     let max_fail: usize = opts.get("max_fail").and_then(|s| s.parse().ok()).unwrap_or(200);
     let summary = match mode.as_str() {
         "script" => script::run(cases, max_fail, &opts),
+        "docsync" => docsync::run(cases, max_fail, &opts),
+        "docsession" => docsession::run_sessions(cases, max_fail, &opts),
+        "roundtrip" => docsession::run_roundtrip(cases, max_fail, &opts),
         "trace" => trace::run(cases, opts.get("trace_out").map(|s| s.as_str()).unwrap_or("/verif/out/trace.ndjson"), &opts),
         _ => {
             eprintln!("unknown mode {mode}");
